@@ -225,7 +225,12 @@ XSchedule(target, abs, d, kind, per, slot, prog, outcome) ==
     /\ LET time == IF abs THEN d ELSE now + d
        IN  /\ outcome \in SchedOutcomes(time, kind, per)
            /\ ApplySched(outcome, time, "drv", "ev", target, prog, kind, per, slot)
-    /\ UNCHANGED <<now, cancelled, terminated, phase, cmd, runVars, result, ghostNS>>
+           \* a request accepted after step() was called and before it has looked at the queue changes the time
+           \* the step is expected to reach (ghost field of cmd, used by StepPost)
+           /\ cmd' = IF phase = "pull" /\ cmd.name = "step" /\ outcome = "ok"
+                        /\ (LiveSet = {} \/ time < cmd.exp)
+                     THEN [cmd EXCEPT !.exp = time] ELSE cmd
+    /\ UNCHANGED <<now, cancelled, terminated, phase, runVars, result, ghostNS>>
 
 -----------------------------------------------------------------------------
 (* Driver: commands that run the executor.  A command begins (Cmd event),  *)
